@@ -134,7 +134,7 @@ def connect_case(reach, stage):
     return None
 
 
-def loss_case(rnd, ncalls, timers, explicit, introspected, dup_cb):
+def loss_case(rnd, ncalls, timers, explicit, introspected, dup_cb, local=False):
     """an established connection with calls, timers, disconnect callbacks and proxies; then the transport closes"""
     from twisted.python import failure
     from twisted.internet import defer
@@ -181,6 +181,15 @@ def loss_case(rnd, ncalls, timers, explicit, introspected, dup_cb):
         extra = lambda o, r: ran.append(('cancelled', r))
         proxies[0][1][0].notifyOnDisconnect(extra)
         proxies[0][1][0].cancelNotifyOnDisconnect(extra)
+    if local:
+        # the application closes the connection itself: disconnect(), then the transport reports the loss
+        what += ', closed locally with disconnect()'
+        try:
+            conn.disconnect()
+        except Exception as e:
+            return '%s: disconnect() raised %s: %s' % (what, type(e).__name__, e)
+        if not ep.transport.disconnecting:
+            return '%s: disconnect() did not close the transport' % what
     try:
         reason = lose(ep)
     except Exception as e:
@@ -223,8 +232,9 @@ def bounded(tier, seed):
         for timers in itertools.product([False, True], repeat=ncalls):
             for explicit, introspected in ((0, 0), (1, 0), (0, 1), (2, 0), (0, 2), (1, 1)) if tier == 'thorough' or ncalls <= 2 else ((1, 1),):
                 for dup in (False, True):
+                    local = (n % 3 == 0)
                     n += 1
-                    f = loss_case(rnd, ncalls, list(timers), explicit, introspected, dup)
+                    f = loss_case(rnd, ncalls, list(timers), explicit, introspected, dup, local)
                     if f:
-                        return n, f, {'calls': ncalls, 'timers': list(timers), 'explicit': explicit, 'introspected': introspected, 'dup_cb': dup}
+                        return n, f, {'calls': ncalls, 'timers': list(timers), 'explicit': explicit, 'introspected': introspected, 'dup_cb': dup, 'local_disconnect': local}
     return n, None, None
